@@ -141,6 +141,7 @@ func randSingle(a *acc, maxLen int) {
 	case 7:
 		e := randEq(rnd)
 		runRuns(a, src, e.f, "same: "+e.name, func(s []int) [][]int { return xslices.Runs(s, e.f) })
+		runRunsPartial(a, src, e.f, "same: "+e.name, vkit.Pick(rnd, takePolicies))
 	case 8:
 		l := rnd.Range(0, 2*n+4)
 		if l > 64 {
@@ -180,6 +181,9 @@ func randSingle(a *acc, maxLen int) {
 			lo = hi
 		}
 		runMulti(a, parts, func(ps [][]int) []int { return xslices.Join(ps...) })
+		if len(parts) <= 6 && rnd.Bool(0.25) {
+			runNestedJoins(a, parts)
+		}
 	case 11, 12:
 		reducersOver(a, src, []int{0, 1, randParam(rnd, n, 0), n, n + 1})
 	case 13:
